@@ -491,7 +491,10 @@ static void exec_step(proc *pr, const pline *l)
         pr->holds_res[r] = false; W.res_holder[r] = -1;
         pr->rel_evseq[r] = W.seq + 1;
         TR2("rel", pr->id, r);
+        extern void mon_forward_expected_begin(int cls, int idx); extern void mon_forward_expected_end(void);
+        mon_forward_expected_begin(GC_RES, r);
         cmb_resource_release(W.res[r]);
+        mon_forward_expected_end();
         PROBE("res.release");
     } else if (pis(l, "PACQ") || pis(l, "PPRE")) {
         if (W.npool == 0) return;
@@ -512,7 +515,10 @@ static void exec_step(proc *pr, const pline *l)
         const uint64_t use0 = cmb_resourcepool_in_use(W.pool[p]);
         pr->pool_held[p] -= n;
         TR3("prel", pr->id, p, n);
+        extern void mon_forward_expected_begin(int cls, int idx); extern void mon_forward_expected_end(void);
+        mon_forward_expected_begin(GC_POOL, p);
         cmb_resourcepool_release(W.pool[p], n);
+        mon_forward_expected_end();
         if (cmb_resourcepool_in_use(W.pool[p]) != use0 - n)
             viol("C07", "release-accounting", "release of %" PRIu64 " changed in_use from %" PRIu64 " to %" PRIu64, n, use0, cmb_resourcepool_in_use(W.pool[p]));
     } else if (pis(l, "BPUT") || pis(l, "BGET")) {
